@@ -42,10 +42,22 @@ struct NodeSt {
     conns: Vec<ConnRec>,
 }
 
+/// What the node does with `USE <keyspace>` (the statement a pool with a session keyspace sends on every new connection).
+#[derive(Default)]
+struct UseCtl {
+    /// from now on a `USE` is read and NEVER answered (everything else on that connection - keep-alive OPTIONS - is)
+    hold: AtomicBool,
+    accepted: std::sync::atomic::AtomicUsize,
+    held: std::sync::atomic::AtomicUsize,
+    /// OPTIONS frames answered on connections whose `USE` is being held (keep-alive probes)
+    probes_on_held: std::sync::atomic::AtomicUsize,
+}
+
 struct Node {
     addr: std::net::SocketAddr,
     st: Arc<Mutex<NodeSt>>,
     refuse: Arc<AtomicBool>,
+    usectl: Arc<UseCtl>,
     task: tokio::task::JoinHandle<()>,
 }
 
@@ -76,6 +88,8 @@ impl Node {
         let refuse = Arc::new(AtomicBool::new(false));
         let setup = Arc::new(tokio::sync::Mutex::new(()));
         let (st2, refuse2) = (Arc::clone(&st), Arc::clone(&refuse));
+        let usectl = Arc::new(UseCtl::default());
+        let usectl2 = Arc::clone(&usectl);
         let task = tokio::spawn(async move {
             loop {
                 let Ok((sock, _)) = listener.accept().await else { return };
@@ -99,10 +113,11 @@ impl Node {
                     g.conns.push(ConnRec { alive: true, ready: false, fault: Arc::clone(&fault), kick: Arc::clone(&kick), shard: info.map(|i| i.0) });
                     (g.conns.len() - 1, info)
                 };
-                tokio::spawn(conn_task(sock, id, info, Arc::clone(&st2), Arc::clone(&setup), fault, kick));
+                usectl2.accepted.fetch_add(1, Ordering::SeqCst);
+                tokio::spawn(conn_task(sock, id, info, Arc::clone(&st2), Arc::clone(&setup), fault, kick, Arc::clone(&usectl2)));
             }
         });
-        Node { addr, st, refuse, task }
+        Node { addr, st, refuse, usectl, task }
     }
 
     fn live(&self) -> usize {
@@ -128,7 +143,9 @@ async fn conn_task(
     setup: Arc<tokio::sync::Mutex<()>>,
     fault: Arc<Mutex<Option<Fault>>>,
     kick: Arc<Notify>,
+    usectl: Arc<UseCtl>,
 ) {
+    let mut use_held = false;
     let gone = |st: &Arc<Mutex<NodeSt>>| st.lock().unwrap().conns[id].alive = false;
     loop {
         let fr = tokio::select! {
@@ -142,12 +159,17 @@ async fn conn_task(
             }
             fr = read_frame(&mut sock) => fr,
         };
-        let Some((stream, opcode, _body)) = fr else {
+        let Some((stream, opcode, body)) = fr else {
             gone(&st);
             return;
         };
         let ok = match opcode {
-            OP_OPTIONS => sock.write_all(&frame(stream, RESP_SUPPORTED, &body_supported_ext(false, info, None))).await.is_ok(),
+            OP_OPTIONS => {
+                if use_held {
+                    usectl.probes_on_held.fetch_add(1, Ordering::SeqCst);
+                }
+                sock.write_all(&frame(stream, RESP_SUPPORTED, &body_supported_ext(false, info, None))).await.is_ok()
+            }
             OP_STARTUP => {
                 let _turn = setup.lock().await;
                 let ok = sock.write_all(&frame(stream, RESP_READY, &[])).await.is_ok();
@@ -157,6 +179,18 @@ async fn conn_task(
                 ok
             }
             OP_REGISTER => sock.write_all(&frame(stream, RESP_READY, &[])).await.is_ok(),
+            // [long string] statement: `USE <name>` is answered with SetKeyspace - or held for ever
+            OP_QUERY if body.len() >= 8 && body[4..].starts_with(b"USE ") => {
+                if usectl.hold.load(Ordering::SeqCst) {
+                    use_held = true;
+                    usectl.held.fetch_add(1, Ordering::SeqCst);
+                    true
+                } else {
+                    let n = u32::from_be_bytes([body[0], body[1], body[2], body[3]]) as usize;
+                    let name = String::from_utf8_lossy(&body[8..(4 + n).min(body.len())]).trim_matches('"').to_owned();
+                    sock.write_all(&frame(stream, RESP_RESULT, &crate::mocknode::body_set_keyspace(&name))).await.is_ok()
+                }
+            }
             OP_QUERY => sock.write_all(&frame(stream, RESP_RESULT, &body_void())).await.is_ok(),
             _ => false,
         };
@@ -541,6 +575,67 @@ pub fn run_poolr(cfg: &str, ctx: &mut Ctx) -> String {
             ctx.fail(format!("{} of 5 requests failed after the node came back", 5 - ok));
         }
         format!("down={},c={},q={}/5", c_down, c, ok)
+    });
+    rt.shutdown_timeout(Duration::from_millis(200));
+    out
+}
+
+
+// ------------------------------------------------------------------------------------------------
+// a new connection whose `USE <session keyspace>` is never answered (connection_pool.rs 1336-1358: no timeout)
+// ------------------------------------------------------------------------------------------------
+
+/// `poolk <k>`: a pool of k connections (PerHost) with a session keyspace, keep-alive 150 / 150 ms, refills paced at
+/// 20 ms. History: the pool fills (every `USE` answered); from then on the node reads `USE` on NEW connections and
+/// never answers it (it keeps answering keep-alive OPTIONS); the node closes one pool connection; 1.5 s later it closes
+/// another one; 1.5 s later `trigger_refill`; 0.5 s later the observation ends.
+/// Output (OBSERVATION, compared with `Model/PoolKeyspace.lean`): per phase the published connection count and the
+/// number of connections the node accepted during the phase; and whether keep-alive probes were answered on the
+/// connection whose `USE` is held.
+pub fn run_poolk(cfg: &str, ctx: &mut Ctx) -> String {
+    let Some(k) = cfg.parse::<usize>().ok().filter(|k| (2..=6).contains(k)) else { return "bad-case".into() };
+    let _ = ctx;
+    let rt = tokio::runtime::Builder::new_multi_thread().worker_threads(2).enable_all().build().unwrap();
+    let out = rt.block_on(async {
+        use scylla::verif_hooks::reconnect::ConstantReconnectPolicy;
+        let node = Node::start(0).await;
+        let Ok(pool) = VerifPool::new_with(
+            node.addr,
+            PoolSize::PerHost(NonZeroUsize::new(k).unwrap()),
+            Some(("ks", false)),
+            false,
+            Some((Duration::from_millis(150), Duration::from_millis(150))),
+            Some(Duration::from_millis(500)),
+            Some(Arc::new(ConstantReconnectPolicy::new(Duration::from_millis(20)))),
+        ) else {
+            return "bad-case".to_owned();
+        };
+        pool.wait_until_initialized().await;
+        let count = |pool: &VerifPool| pool.connection_count().unwrap_or(0);
+        let t0 = std::time::Instant::now();
+        while count(&pool) < k {
+            if t0.elapsed() > Duration::from_secs(6) {
+                return format!("e2e-skip pool-not-full {}/{}", count(&pool), k);
+            }
+            tokio::time::sleep(Duration::from_millis(5)).await;
+        }
+        let acc = |n: &Node| n.usectl.accepted.load(Ordering::SeqCst);
+        let mut phases: Vec<String> = Vec::new();
+        node.usectl.hold.store(true, Ordering::SeqCst);
+        let mut a0 = acc(&node);
+        node.hit(0, Fault::Fin);
+        tokio::time::sleep(Duration::from_millis(1500)).await;
+        phases.push(format!("c={},acc={},held={}", count(&pool), acc(&node) - a0, node.usectl.held.load(Ordering::SeqCst)));
+        a0 = acc(&node);
+        node.hit(0, Fault::Fin);
+        tokio::time::sleep(Duration::from_millis(1500)).await;
+        phases.push(format!("c={},acc={},held={}", count(&pool), acc(&node) - a0, node.usectl.held.load(Ordering::SeqCst)));
+        a0 = acc(&node);
+        pool.trigger_refill();
+        tokio::time::sleep(Duration::from_millis(500)).await;
+        phases.push(format!("c={},acc={},held={}", count(&pool), acc(&node) - a0, node.usectl.held.load(Ordering::SeqCst)));
+        let probes = node.usectl.probes_on_held.load(Ordering::SeqCst);
+        format!("{} | probes={}", phases.join(" | "), if probes >= 3 { "answered" } else { "few" })
     });
     rt.shutdown_timeout(Duration::from_millis(200));
     out
